@@ -164,13 +164,15 @@ Fixpoint nd_map (g : option Z -> option Z) (a : nd) : nd :=
 (* NetCDFRead._create_netcdfarray: the data type given to the file array when
    the dataset is read, i.e. Data.dtype for as long as the data are on disk.
    After C12-fix2-1 it is found by unpacking an empty array of the variable's
-   type with netcdf_indexer itself. *)
-Definition declared_dt (is_data : bool) (v : dt) (p : pack) : dt := realised_dt v p.
+   type with netcdf_indexer itself - when the dataset is read with unpack=True;
+   the variable's own type otherwise. *)
+Definition declared_dt (is_data unpack : bool) (v : dt) (p : pack) : dt :=
+  if unpack then realised_dt v p else v.
 
 (* The code as it was: numpy.result_type of the variable's type and of
    result_type(add_offset, scale_factor) - for the data variable of a field only;
    the variable's own type for every other construct; _Unsigned not considered. *)
-Definition declared_dt_old (is_data : bool) (v : dt) (p : pack) : dt :=
+Definition declared_dt_old (is_data unpack : bool) (v : dt) (p : pack) : dt :=
   if is_data then
     match p_offset p, p_scale p with
     | Some (ta, _), Some (ts, _) => promote v (promote ta ts)
@@ -183,10 +185,34 @@ Definition declared_dt_old (is_data : bool) (v : dt) (p : pack) : dt :=
 (* ---- the file system and the two backends ------------------------------------- *)
 (* A netCDF variable: its type, its packing attributes, the stored (packed)
    values with the missing ones already marked. *)
-Record stored := { s_dt : dt; s_pack : pack; s_raw : nd }.
+Record stored := { s_dt : dt; s_pack : pack; s_raw : nd; s_fill : Z }.
+(* s_fill: the number actually stored where a value is missing (the _FillValue) *)
 
-Definition s_realised (st : stored) : dt := realised_dt (s_dt st) (s_pack st).
-Definition s_unpacked (st : stored) : nd := nd_map (unpack_val (s_dt st) (s_pack st)) (s_raw st).
+(* The options a dataset is read with, cfdm.read(mask=, unpack=): components
+   "mask" and "unpack" of every file array created by the read, handed to
+   netcdf_indexer at every access.  Every array derived from a file array
+   (copy: __init__(source=...)) has to carry them unchanged. *)
+Record flags := { fl_mask : bool; fl_unpack : bool }.
+Definition flags_default : flags := {| fl_mask := true; fl_unpack := true |}.
+Definition flags_eqb (a b : flags) : bool :=
+  Bool.eqb (fl_mask a) (fl_mask b) && Bool.eqb (fl_unpack a) (fl_unpack b).
+
+(* netcdf_indexer.__getitem__ under (mask, unpack): the data type ... *)
+Definition realised_fl (fl : flags) (v : dt) (p : pack) : dt :=
+  if fl_unpack fl then realised_dt v p else v.
+
+(* ... and one element: a missing element is masked only when mask is set
+   (otherwise the stored fill value is data like any other); the _Unsigned view
+   and the packing arithmetic are applied only when unpack is set. *)
+Definition present (fl : flags) (st : stored) (x : option Z) : option Z :=
+  let u := fun z => if fl_unpack fl then unpack_z (s_dt st) (s_pack st) z else z in
+  match x with
+  | Some z => Some (u z)
+  | None => if fl_mask fl then None else Some (u (s_fill st))
+  end.
+
+Definition s_realised (fl : flags) (st : stored) : dt := realised_fl fl (s_dt st) (s_pack st).
+Definition s_unpacked (fl : flags) (st : stored) : nd := nd_map (present fl st) (s_raw st).
 
 (* file number -> variable number -> the variable stored there (None: no such file) *)
 Definition disk := Z -> Z -> option stored.
@@ -240,35 +266,45 @@ Definition h5_fetch (a : nd) (poss : list (list nat)) : nd :=
 Record cfg := {
   c_fetch : nd -> list (list nat) -> nd;
   c_close_on_error : bool;     (* __getitem__ closes the file in a finally clause *)
-  c_declare : bool -> dt -> pack -> dt   (* the data type read gives to a file array *)
+  c_declare : bool -> bool -> dt -> pack -> dt;  (* the data type read gives to a file array *)
+  c_copy_flags : flags -> flags   (* the (mask, unpack) components of a COPY of a file array *)
 }.
 
-Definition cfg_nc4 : cfg := {| c_fetch := nc4_fetch; c_close_on_error := true; c_declare := declared_dt |}.
-Definition cfg_h5 : cfg := {| c_fetch := h5_fetch; c_close_on_error := true; c_declare := declared_dt |}.
+(* NetCDF4Array.__init__ / H5netcdfArray.__init__ (source=...): each component is
+   taken from the same component of the source *)
+Definition copy_flags_id (fl : flags) : flags := fl.
+(* the seeded variant: H5netcdfArray takes "unpack" from the source's "mask" *)
+Definition copy_flags_swapped (fl : flags) : flags := {| fl_mask := fl_mask fl; fl_unpack := fl_mask fl |}.
+
+Definition cfg_nc4 : cfg := {| c_fetch := nc4_fetch; c_close_on_error := true; c_declare := declared_dt; c_copy_flags := copy_flags_id |}.
+Definition cfg_h5 : cfg := {| c_fetch := h5_fetch; c_close_on_error := true; c_declare := declared_dt; c_copy_flags := copy_flags_id |}.
 (* the code as it stood before C12-fix-1: no close when the indexing raises *)
-Definition cfg_nc4_old : cfg := {| c_fetch := nc4_fetch; c_close_on_error := false; c_declare := declared_dt |}.
-Definition cfg_h5_old : cfg := {| c_fetch := h5_fetch; c_close_on_error := false; c_declare := declared_dt |}.
+Definition cfg_nc4_old : cfg := {| c_fetch := nc4_fetch; c_close_on_error := false; c_declare := declared_dt; c_copy_flags := copy_flags_id |}.
+Definition cfg_h5_old : cfg := {| c_fetch := h5_fetch; c_close_on_error := false; c_declare := declared_dt; c_copy_flags := copy_flags_id |}.
+(* the seeded variant of H5netcdfArray.__init__ *)
+Definition cfg_h5_swap : cfg := {| c_fetch := h5_fetch; c_close_on_error := true; c_declare := declared_dt;
+                                   c_copy_flags := copy_flags_swapped |}.
 (* the code as it stood before C12-fix2-1: the declared data type *)
-Definition cfg_nc4_old2 : cfg := {| c_fetch := nc4_fetch; c_close_on_error := true; c_declare := declared_dt_old |}.
-Definition cfg_h5_old2 : cfg := {| c_fetch := h5_fetch; c_close_on_error := true; c_declare := declared_dt_old |}.
+Definition cfg_nc4_old2 : cfg := {| c_fetch := nc4_fetch; c_close_on_error := true; c_declare := declared_dt_old; c_copy_flags := copy_flags_id |}.
+Definition cfg_h5_old2 : cfg := {| c_fetch := h5_fetch; c_close_on_error := true; c_declare := declared_dt_old; c_copy_flags := copy_flags_id |}.
 
 (* ---- data objects ------------------------------------------------------------ *)
 (* The array held by a Data object: a file array (file, address, shape: all that
    is needed to fetch later) or a numpy array in memory. *)
 Inductive cell :=
-| OnDisk (f v : Z) (shape : list Z) (d : dt)    (* d: the declared data type *)
+| OnDisk (f v : Z) (shape : list Z) (d : dt) (fl : flags)    (* d: the declared data type *)
 | InMem (shape : list Z) (d : dt) (a : nd).
 
 Definition cshape (c : cell) : list Z :=
-  match c with OnDisk _ _ sh _ => sh | InMem sh _ _ => sh end.
+  match c with OnDisk _ _ sh _ _ => sh | InMem sh _ _ => sh end.
 
 (* Data.dtype: the file array's declared type, or the type of the numpy array *)
 Definition cdtype (c : cell) : dt :=
-  match c with OnDisk _ _ _ d => d | InMem _ d _ => d end.
+  match c with OnDisk _ _ _ d _ => d | InMem _ d _ => d end.
 
 Definition content (dk : disk) (c : cell) : option nd :=
   match c with
-  | OnDisk f v _ _ => match dk f v with Some st => Some (s_unpacked st) | None => None end
+  | OnDisk f v _ _ fl => match dk f v with Some st => Some (s_unpacked fl st) | None => None end
   | InMem _ _ a => Some a
   end.
 
@@ -281,15 +317,15 @@ Definition full_ps (sh : list Z) : list pindex := map (fun _ => pall) sh.
    after the file has been opened.
    The part selected is read from the variable and then unpacked by
    netcdf_indexer: the array returned has the realised data type. *)
-Definition fa_get (C : cfg) (dk : disk) (f v : Z) (sh : list Z) (ps : list pindex)
+Definition fa_get (C : cfg) (dk : disk) (f v : Z) (sh : list Z) (fl : flags) (ps : list pindex)
   : result (list nat * dt * nd) * trace :=
   match dk f v with
   | None => (Err OtherErr, [])
   | Some st =>
     match positions_all sh ps with
     | Err e => (Err e, EOpen f :: (if c_close_on_error C then [EClose f] else []))
-    | Ok poss => (Ok (map (@length nat) poss, s_realised st,
-                      nd_map (unpack_val (s_dt st) (s_pack st)) (c_fetch C (s_raw st) poss)),
+    | Ok poss => (Ok (map (@length nat) poss, s_realised fl st,
+                      nd_map (present fl st) (c_fetch C (s_raw st) poss)),
                   [EOpen f; EFetch f v poss; EClose f])
     end
   end.
@@ -303,10 +339,10 @@ Definition to_cell (r : list nat * dt * nd) : cell := InMem (zshape (fst (fst r)
 Definition sub (C : cfg) (dk : disk) (c : cell) (idx : list index) : result cell * trace :=
   match c with
   | InMem sh d a => (rbind (getitem sh a idx) (fun r => Ok (InMem (zshape (fst r)) d (snd r))), [])
-  | OnDisk f v sh _ =>
+  | OnDisk f v sh _ fl =>
     match parse_indices sh idx with
     | Err e => (Err e, [])
-    | Ok ps => let (r, t) := fa_get C dk f v sh ps in (rbind r (fun r => Ok (to_cell r)), t)
+    | Ok ps => let (r, t) := fa_get C dk f v sh fl ps in (rbind r (fun r => Ok (to_cell r)), t)
     end
   end.
 
@@ -314,8 +350,8 @@ Definition sub (C : cfg) (dk : disk) (c : cell) (idx : list index) : result cell
 Definition realise (C : cfg) (dk : disk) (c : cell) : result (dt * nd) * trace :=
   match c with
   | InMem _ d a => (Ok (d, a), [])
-  | OnDisk f v sh _ =>
-    let (r, t) := fa_get C dk f v sh (full_ps sh) in (rbind r (fun r => Ok (snd (fst r), snd r)), t)
+  | OnDisk f v sh _ fl =>
+    let (r, t) := fa_get C dk f v sh fl (full_ps sh) in (rbind r (fun r => Ok (snd (fst r), snd r)), t)
   end.
 
 (* ---- operations on a heap of Data objects ------------------------------------ *)
@@ -353,12 +389,19 @@ Definition item_obs (d : dt) (x : option Z) : obs :=
   | Some _ => OArray [] (match dkind_of d with KF => F8 | _ => I8 end) [x]
   end.
 
+(* Data.copy(): a new file array initialised from the old one (or a copy of the numpy array) *)
+Definition copy_cell (C : cfg) (c : cell) : cell :=
+  match c with
+  | OnDisk f v sh d fl => OnDisk f v sh d (c_copy_flags C fl)
+  | InMem _ _ _ => c
+  end.
+
 Definition step (C : cfg) (dk : disk) (h : list cell) (o : op) : list cell * obs * trace :=
   match o with
   | OCopy i =>
     match nth_error h i with
     | None => (h, OErr OtherErr, [])
-    | Some c => (h ++ [c], ONone, [])
+    | Some c => (h ++ [copy_cell C c], ONone, [])
     end
   | OSub i idx =>
     match nth_error h i with
@@ -419,7 +462,7 @@ Definition step (C : cfg) (dk : disk) (h : list cell) (o : op) : list cell * obs
                          | [x] => (h, item_obs d x, t)
                          | _ => (h, OErr ValueErr, t)
                          end
-        | OnDisk _ _ _ _ => (h, OErr OtherErr, t)
+        | OnDisk _ _ _ _ _ => (h, OErr OtherErr, t)
         end
       end
     end
@@ -461,7 +504,7 @@ Fixpoint run_heap (C : cfg) (dk : disk) (h : list cell) (ops : list op) : list c
 Definition eager_cell (dk : disk) (c : cell) : cell :=
   match c with
   | InMem _ _ _ => c
-  | OnDisk f v sh _ => match dk f v with Some st => InMem sh (s_realised st) (s_unpacked st) | None => c end
+  | OnDisk f v sh _ fl => match dk f v with Some st => InMem sh (s_realised fl st) (s_unpacked fl st) | None => c end
   end.
 
 (* ---- cfdm.read ----------------------------------------------------------------- *)
@@ -502,14 +545,14 @@ Definition read_fetches (d : vdesc) : bool :=
 Definition is_data_role (r : role) : bool := match r with RData => true | _ => false end.
 
 (* _create_netcdfarray: the data type declared for the variable's file array *)
-Definition declared_of (C : cfg) (dk : disk) (f : Z) (d : vdesc) : dt :=
+Definition declared_of (C : cfg) (dk : disk) (f : Z) (fl : flags) (d : vdesc) : dt :=
   match dk f (vd_var d) with
-  | Some st => c_declare C (is_data_role (vd_role d)) (s_dt st) (s_pack st)
+  | Some st => c_declare C (is_data_role (vd_role d)) (fl_unpack fl) (s_dt st) (s_pack st)
   | None => F8
   end.
 
-Definition read_var (C : cfg) (dk : disk) (f : Z) (d : vdesc) : list cell * trace :=
-  let c := OnDisk f (vd_var d) (vd_shape d) (declared_of C dk f d) in
+Definition read_var (C : cfg) (dk : disk) (f : Z) (fl : flags) (d : vdesc) : list cell * trace :=
+  let c := OnDisk f (vd_var d) (vd_shape d) (declared_of C dk f fl d) fl in
   if read_fetches d then
     match realise C dk c with
     | (Ok (ty, a), t) =>
@@ -523,16 +566,17 @@ Definition read_var (C : cfg) (dk : disk) (f : Z) (d : vdesc) : list cell * trac
     end
   else ([c], []).
 
-Fixpoint read_vars (C : cfg) (dk : disk) (f : Z) (ds : list vdesc) : list cell * trace :=
+Fixpoint read_vars (C : cfg) (dk : disk) (f : Z) (fl : flags) (ds : list vdesc) : list cell * trace :=
   match ds with
   | [] => ([], [])
-  | d :: r => let (c, t) := read_var C dk f d in
-              let (cs, ts) := read_vars C dk f r in (c ++ cs, t ++ ts)
+  | d :: r => let (c, t) := read_var C dk f fl d in
+              let (cs, ts) := read_vars C dk f fl r in (c ++ cs, t ++ ts)
   end.
 
 (* read: the dataset is opened once, scanned, and closed before returning
-   (read_vars["datasets"], file_close). *)
-Definition read (C : cfg) (dk : disk) (f : Z) (ds : list vdesc) : list cell * trace :=
-  let (cs, t) := read_vars C dk f ds in (cs, EOpen f :: t ++ [EClose f]).
+   (read_vars["datasets"], file_close).  [fl]: cfdm.read(mask=, unpack=), given
+   to every file array the read creates. *)
+Definition read (C : cfg) (dk : disk) (f : Z) (fl : flags) (ds : list vdesc) : list cell * trace :=
+  let (cs, t) := read_vars C dk f fl ds in (cs, EOpen f :: t ++ [EClose f]).
 
 Definition fetched_vars (t : trace) : list Z := map (fun x => snd (fst x)) (fetches t).
